@@ -117,6 +117,8 @@ def concrete_unit(arg_):
     from pytableaux.lang import Argument
     from pytableaux.logics import registry
     registry.import_all()
+    lexsym.reset_cache()
+    lexsym.remove_hash_abstraction()
     out = dict(logic=name, runs=0, bad=[], samples=[], reflexive=0, monotone=0, renamed=0)
     sentences = []
     for argstr in shapes:
@@ -199,6 +201,7 @@ def symbolic_unit(arg_):
     drv = SymDriver()
     out = dict(logic=name, paths=0, decisions=0, queries=0, bad=[], samples=[], inexhausted=[], args=0)
     for argstr in shapes:
+        lexsym.reset_cache()
         n = len(symbols(Argument(argstr))['c'])
         if n < 2 or n > 3:
             continue
@@ -235,6 +238,8 @@ def symbolic_unit(arg_):
             out['samples'].append(dict(logic=name, argument=argstr, naming_classes=len(paths),
                                        outcomes=sorted(classes),
                                        a_path_condition=[str(c) for c in paths[-1].pc[:6]]))
+    lexsym.reset_cache()
+    lexsym.remove_hash_abstraction()
     return out
 
 
